@@ -25,7 +25,7 @@ vars == <<ph, case, out>>
 -----------------------------------------------------------------------------
 (* Part 1 *)
 Names == {"P", "Q"}
-Vers == { <<1, 0>>, <<1, 1>>, <<2, 0>> }
+Vers == { <<1, 0>>, <<1, 213>>, <<2, 0>> }          \* a minor above 99 next to a newer major
 FilePool == { [root |-> r, depth |-> d, name |-> n, maj |-> v[1], min |-> v[2], ext |-> e] :
                 r \in {"t", "l"}, d \in 0..2, n \in Names, v \in Vers, e \in {"dsdl", "uavcan"} }
 \* the (name, version) of a definition must be unique within a namespace
@@ -82,15 +82,20 @@ Args == { [dir |-> d, sp |-> s] : d \in Dirs, s \in Spellings }
 DirsRejected(S, allow) ==
   \E p, q \in S : p # q /\ (IsInside(q, p) \/ (~allow /\ LowerName(p) = LowerName(q)))
 
+\* (C09) every namespace of the harness holds a definition that refers to a sibling by its relative name: the reference is
+\* ambiguous - hence rejected - when another admitted directory provides a namespace of the same name ignoring case
+Ambiguous(root, S) == \E q \in S : q # root /\ LowerName(q) = LowerName(root)
 DirsInit == ph = 0 /\ case = [root |-> [dir |-> <<"w", "a">>, sp |-> "abs"], lookups |-> <<>>, allow |-> TRUE] /\ out = FALSE
 DirsPick == /\ ph = 0
             /\ \E r \in Args, allow \in BOOLEAN :
                  \E ls \in {<<>>} \cup { <<x>> : x \in Args } \cup { <<x, y>> : x \in Args, y \in Args } :
                    /\ case' = [root |-> r, lookups |-> ls, allow |-> allow]
-                   /\ out' = DirsRejected({r.dir} \cup { ls[j].dir : j \in DOMAIN ls }, allow)
+                   /\ out' = (DirsRejected({r.dir} \cup { ls[j].dir : j \in DOMAIN ls }, allow)
+                              \/ Ambiguous(r.dir, {r.dir} \cup { ls[j].dir : j \in DOMAIN ls }))
             /\ ph' = 1
 DirsSpec == DirsInit /\ [][DirsPick]_vars
 \* duplicates, order and spelling of the arguments are irrelevant: the verdict is a function of the set of resolved dirs
 VerdictBySet ==
-  ph = 1 => out = DirsRejected({case.root.dir} \cup { case.lookups[j].dir : j \in DOMAIN case.lookups }, case.allow)
+  ph = 1 => LET S == {case.root.dir} \cup { case.lookups[j].dir : j \in DOMAIN case.lookups } IN
+              out = (DirsRejected(S, case.allow) \/ Ambiguous(case.root.dir, S))
 =============================================================================
